@@ -350,6 +350,11 @@ def check_sign(case):
         for k in (1, 32, 63):
             if _accepts(verify_sign, pk, sig[64 - k:] + m, sig[:64 - k]):
                 return Fail('verify_sign/accepts/signature-tail-moved-into-message', f'k={k} pk={pk.hex()} msg={m.hex()[:120]}')
+    # an EMPTY signature with a message that is itself (signature || m) - nothing was signed under that name
+    for sig, name in list(sigs.items())[:1]:
+        for empty in (b'', bytearray()):
+            if _accepts(verify_sign, pk, sig + m, empty):
+                return Fail('verify_sign/accepts/empty-signature-with-a-self-signed-message', f'pk={pk.hex()} msg={m.hex()[:120]}')
     # a genuine signature over (extra || m), presented as the signature (sig64 || extra) of m
     extra = bytes.fromhex(case['other_msg'])[:40] or b'\x01'
     s_ext = SigningKey(seed).sign(extra + m).signature
@@ -409,8 +414,12 @@ def _words_of(case, keys):
         seed = bytes.fromhex(case['stream'])
         edge = case.get('edge', 5)
 
+        stuck = case.get('stuck', 0)            # the source returns zero bytes for its first `stuck` requests (a starved / mocked
+                                                # entropy source that recovers): the generator keeps drawing until a draw is valid
         def fake(n):
             state['n'] += 1
+            if state['n'] <= stuck:
+                return b'\x00' * n
             if state['n'] % edge == 0:
                 return (b'\x00' if (state['n'] // edge) % 2 else b'\xff') * n
             out = b''
@@ -509,6 +518,9 @@ def enum_mnemonic_valid(tier):
         yield {'i': i}
     for i in range(12 if tier == 'quick' else 200):          # reproducible draws that are certain to contain word 0 / word 2047
         yield {'stream': hashlib.sha256(b'c20/stream/%d' % i).hexdigest()[:16], 'edge': 3 + i % 7}
+    # a source that is stuck at zero for thousands of candidates and then recovers (24 requests per candidate)
+    for i, cand in enumerate((1000, 4200, 9000) if tier == 'quick' else (1000, 4100, 4200, 9000, 20000, 70000)):
+        yield {'stream': hashlib.sha256(b'c20/stuck/%d' % i).hexdigest()[:16], 'edge': 5, 'stuck': 24 * cand + i}
 
 
 def enum_derive(tier):
